@@ -293,9 +293,36 @@ def c11():
     ]
 
 
+def c19():
+    return [
+        R("c19-new-self-lambda", "C19", "xitorch/_impls/optimize/root/_jacobian.py", "        self.y = y0\n        self.func = func\n",
+          "        self.y = y0\n        self.func = func\n        self._solve_cb = lambda v: self.solve(v)\n", "C19-C"),
+        R("c19-ctx-output-rootfinder", "C19", RF, "        ctx.fcn = fcn\n\n        # split tensors and non-tensors params", "        ctx.fcn = fcn\n        ctx.y = y\n\n        # split tensors and non-tensors params", "AC8"),
+        R("c19-ctx-output-tuple-symeig", "C19", SYM, "        ctx.na = na\n        ctx.A = A\n        ctx.M = M\n        return evals, evecs", "        ctx.na = na\n        ctx.A = A\n        ctx.M = M\n        ctx.eig = (evals, evecs)\n        return evals, evecs", "AC8"),
+        R("c19-global-cache", "C19", FQ, "def leggauss(fcn, xl, xu, params, n=100, **unused):", "_lg_cache = {}\n\n\ndef leggauss(fcn, xl, xu, params, n=100, **unused):\n    _lg_cache[n] = xu", "C19-G"),
+        R("c19-recursive-closure", "C19", QUAD, "            def new_fcn(x, *grad_y_params):\n                grad_ys = grad_y_params[0]\n", "            def new_fcn(x, *grad_y_params):\n                grad_ys = grad_y_params[0]\n                _self = new_fcn\n", "C19-R"),
+    ]
+
+
+def c20():
+    return [
+        R("c20-tuple-one-side", "C20", PACK, "    if isinstance(b, torch.Tensor):\n        res.append(b)\n    elif isinstance(b, list):\n        for elmt in b:", "    if isinstance(b, torch.Tensor):\n        res.append(b)\n    elif isinstance(b, (list, tuple)):\n        for elmt in b:", "C20-T"),
+        R("c20-dict-order", "C20", PACK, "        for key, elmt in b.items():\n            b[key] = _put_tensors(elmt, tensors)", "        for key, elmt in sorted(b.items()):\n            b[key] = _put_tensors(elmt, tensors)", "C20-T"),
+        R("c20-pop-last", "C20", PACK, "        b = tensors.pop(0)", "        b = tensors.pop()", "C20-T"),
+        R("c20-refill-self-obj", "C20", PACK, "            memo = copy(self._tensor_memo)\n            new_obj = deepcopy(self._obj, memo)\n            new_obj = _put_tensors(new_obj, tensors)", "            new_obj = _put_tensors(self._obj, tensors)", "C20-F"),
+        R("c20-shared-memo", "C20", PACK, "            memo = copy(self._tensor_memo)\n            new_obj = deepcopy(self._obj, memo)", "            new_obj = deepcopy(self._obj, self._tensor_memo)", "C20-F"),
+        R("c20-caller-list-consumed", "C20", PACK, "                tensors = copy(tensors)\n", "                pass\n", "C20-F"),
+        R("c20-no-shape-check", "C20", PACK, "                if tens.shape != shape:", "                if False:", "C20-R"),
+        R("c20-no-length-check", "C20", PACK, "            if len(tensor_shapes) != len(tensors):\n                raise RuntimeError(\"Mismatch length of the tensors\")\n", "", "C20-R"),
+        R("c20-key-not-id", "C20", PACK, "    ids_list = [id(bb) for bb in b]", "    ids_list = [bb.data_ptr() for bb in b]", "C20-I"),
+        R("c20-init-keeps-original", "C20", PACK, "        self._obj = deepcopy(obj, memo)", "        self._obj = obj", "C20-F"),
+        R("c20-construct-caches", "C20", PACK, "            new_obj = _put_tensors(new_obj, tensors)\n\n            return new_obj", "            new_obj = _put_tensors(new_obj, tensors)\n            self._last = new_obj\n\n            return new_obj", "C20-F"),
+    ]
+
+
 def all_mutants():
     ms = []
-    for f in (defects_back, c01, c02, c03, c04, c08, c13, c16, c10, c11):
+    for f in (defects_back, c01, c02, c03, c04, c08, c13, c16, c10, c11, c19, c20):
         ms += f()
     import importlib
     try:
